@@ -1669,6 +1669,7 @@ static int cif_buf_write(write_buffer_tp *buf, const void *src, size_t len) {
                 /* fall back to requesting only what is imminently needed */
                 proposed_cap = needed_cap;
             }
+            working_cap = proposed_cap;
         } while (proposed_cap < needed_cap);
 
         /* reallocate the buffer space */
